@@ -31,7 +31,7 @@ def load_known():
 def load_program(config, keep_target=False):
     info = extract.extract(config, keep_target=keep_target)
     dicts = [json.load(open(p)) for p in info["files"]]
-    ren = {}
+    ren = {}; ref = None
     if os.environ.get("VERIF_NO_INLINE") != "1":
         import renames
         refp = os.path.join(HERE, "reference_fns.json")
@@ -40,13 +40,19 @@ def load_program(config, keep_target=False):
     prog = Program(dicts)
     prog.extract_info = info
     prog.renames = ren
+    ref_callers = (ref or {}).get("callers", {}) if os.environ.get("VERIF_NO_INLINE") != "1" else {}
     if os.environ.get("VERIF_NO_INLINE") != "1":
         import inline
         prog, st = inline.normalise(prog)
+        import cfgnorm
+        prog = cfgnorm.normalise(prog)
         prog = inline.ghost_expose(prog)
         prog.extract_info = info
+        prog.renames = ren
+        prog.inline_stats = st
         if st.get("reference") == "missing":
             raise SystemExit("BROKEN-CHECKER: rules/reference_fns.json is missing (python3 rules/main.py gen-reference)")
+    prog.ref_callers = ref_callers
     return prog
 
 def run_property(pid, tier):
@@ -71,6 +77,13 @@ def run_property(pid, tier):
             rule_counts["%s@%s" % (k, cfg)] = v
         for k, v in getattr(ctx, "extra", {}).items():
             extra["%s@%s" % (k, cfg)] = v
+        st = getattr(prog, "inline_stats", None) or {}
+        extra["normalisation@%s" % cfg] = {
+            "renames_undone": getattr(prog, "renames", {}) or {},
+            "functions_not_in_reference": st.get("new_fns", []),
+            "inlined_call_sites": ["%s <- %s" % x for x in st.get("sites", [])][:60],
+            "helper_value_summaries": getattr(prog, "ghost_sites", 0),
+        }
     floors = dict(getattr(mod, "FLOORS", {}))
     fj = os.path.join(HERE, "floors.json")
     if os.path.exists(fj):
